@@ -3,6 +3,7 @@ import SimpleDnsModel.Model.Match
 import SimpleDnsModel.Model.Compress
 import SimpleDnsModel.Model.NameText
 import SimpleDnsModel.Model.Txt
+import SimpleDnsModel.Model.Mdns
 import SimpleDnsModel.Spec.NameDecode
 import SimpleDnsModel.Spec.Rfc1035Header
 open Dns Dns.Text
@@ -29,6 +30,42 @@ def pStr : P String := fun ts => do
 def pOptStr : P (Option String)
   | "-" :: ts => some (none, ts)
   | ts => (pStr ts).map fun (s, ts) => (some s, ts)
+
+open Dns.Mdns in
+/-- store operations: `A rr` | `C now rr` | `R rr` | `X` | `I now service full packet` -/
+partial def runOps (s : Store) : List String → Option (Store × List String)
+  | "A" :: ts => do
+    let (r, ts) ← pRR ts
+    runOps (s.addAuth r) ts
+  | "C" :: ts => do
+    let (now, ts) ← pNat ts
+    let (r, ts) ← pRR ts
+    runOps (s.addCached r now) ts
+  | "R" :: ts => do
+    let (r, ts) ← pRR ts
+    runOps (s.remove r) ts
+  | "X" :: ts => runOps s.clear ts
+  | "I" :: ts => do
+    let (now, ts) ← pNat ts
+    let (service, ts) ← pName ts
+    let (full, ts) ← pName ts
+    let (p, ts) ← pPacket ts
+    runOps (ingest p service full s now) ts
+  | ts => some (s, ts)
+
+def sortStrings (xs : List String) : List String :=
+  xs.foldl (fun acc x =>
+    let rec ins : List String → List String
+      | [] => [x]
+      | y :: ys => if x < y then x :: y :: ys else y :: ins ys
+    ins acc) []
+
+def showSorted (xs : List String) : String :=
+  (sortStrings xs).foldl (fun acc x => acc ++ " ; " ++ x) (toString xs.length)
+
+def showInstance (i : Mdns.Instance) : String :=
+  hexOfBytes i.name ++ " ips " ++ showSorted (i.ips.map fun ip => (if ip.1 then "6:" else "4:") ++ toString ip.2) ++
+    " ports " ++ showSorted (i.ports.map toString) ++ " attrs " ++ showAttrs i.attrs
 
 def showNamePos (x : Name × Nat) : String := showName x.1 ++ " " ++ toString x.2
 
@@ -144,6 +181,37 @@ def answer (ts : List String) : String :=
     match bytesOfHex hex with
     | some b => showOut hexOfBytes (CharStr.new b)
     | none => "bad-op"
+  | "mdns" :: rest =>
+    match runOps Mdns.Store.empty rest with
+    | some (s, "Q" :: ts) =>
+      match pPacket ts with
+      | some (q, [now]) =>
+        match now.toNat? with
+        | some now =>
+          match Mdns.buildReply q s now with
+          | none => "none"
+          | some (r, u) => "some " ++ toString r.header.id ++ " " ++ toString r.header.flags ++ " " ++
+              showBool u ++ " answers " ++ showSorted (r.answers.map showRR) ++ " additional " ++
+              showSorted (r.additional.map showRR)
+        | none => "bad-op"
+      | _ => "bad-op"
+    | some (s, "G" :: ts) =>
+      match pName ts with
+      | some (n, [sub, auth, cached, now]) =>
+        match now.toNat? with
+        | some now =>
+          let f : Mdns.Filter := ⟨sub == "1", auth == "1", cached == "1"⟩
+          showSorted ((s.getDomain n f now).flatten.map showRR)
+        | none => "bad-op"
+      | _ => "bad-op"
+    | some (s, "K" :: ts) =>
+      match pName ts with
+      | some (service, [now]) =>
+        match now.toNat? with
+        | some now => showSorted ((Mdns.known s service now).map showInstance)
+        | none => "bad-op"
+      | _ => "bad-op"
+    | _ => "bad-op"
   | ["type", c] =>
     match c.toNat? with
     | some c => (TYPE.ofCode c).mnemonic ++ " " ++ toString (TYPE.ofCode c).toCode
